@@ -1,5 +1,6 @@
 import TcheranVerif.Model.Search
 import TcheranVerif.Proofs.SearchSound
+import TcheranVerif.Proofs.SearchReach
 /-!
 # C04 — the search never overflows its score or counter arithmetic (theorems over the search model)
 
@@ -14,8 +15,15 @@ legal move of the root — whether it is the head of the principal variation or 
 the picker. The one assumption is stated in the theorem: the 64-bit key does not confuse two positions
 reachable from the root that have different legal moves (`KeyFaithful`; every engine that plays its hash
 move unverified rests on it, it cannot be discharged). `search_answers_unless_panic`: the only way not to
-answer is the outcome `panic` of the model (the checked-arithmetic / index / `unwrap` failures), whose
-absence for whole searches is decided on the implementation in both build profiles: partial.
+answer is the outcome `panic` of the model (the checked-arithmetic / index / `unwrap` failures).
+**`reach_no_eval_panic`** and its companions rule most of those out at **every position a search from a legal root
+can reach** (`ReachN`: legal moves and null moves out of check, to any depth — a superset of what any search
+visits): the board views agree, key and accumulators are in step, there are at most sixteen men a side
+(`men_apply`), so the static evaluation is total — no table index out of range, no `i16` narrowing failure — and
+strictly inside the non-mate range (C16 `eval_bounded`), the reverse-futility and futility margins computed from
+it do not overflow, the king is found, `make_move` answers for every legal move. What is left to the runs on the
+implementation in both build profiles: the remaining resource panics of whole searches (the 218-slot move
+list, the 255-row killer table and PV at extreme depth): partial.
 -/
 namespace Tcheran.Props.C04
 open Tcheran Tcheran.Search
@@ -193,6 +201,42 @@ example : ∃ (root : Game) (_ : SInv root), KeyFaithful root :=
 
 example : -32767 ≤ neg 50 ∧ neg 50 < neg (-50) := by decide
 
+/-! ### no-panic facts at every position a search can reach -/
+
+open Rules in
+/-- **reach_no_eval_panic**: at every position reachable from a legal root by legal moves and null moves out of
+check, the static evaluation is total and outside the mate range -/
+theorem reach_no_eval_panic (T : SliderTables) (root : Game) (hs : Sync theCfg root)
+    (hl : legalPos (ofGame root) = true) (n : Nat) (g : Game) (hr : ReachN root n g) :
+    ∃ v, Eval.eval g = some v ∧ -31900 < v ∧ v < 31900 ∧ isMateInMoves v = none :=
+  reach_eval T root hs hl n g hr
+
+open Rules in
+/-- the pruning margins computed from that evaluation stay inside `i16` -/
+theorem reach_margins (T : SliderTables) (root : Game) (hs : Sync theCfg root)
+    (hl : legalPos (ofGame root) = true) (n : Nat) (g : Game) (hr : ReachN root n g) (depth : Nat)
+    (hd : depth ≤ Gen.p_reverse_futility_prune_depth) :
+    ∃ ev, Eval.eval g = some ev ∧
+      inI16 (ev - Gen.p_reverse_futility_prune_margin_per_ply * depth) = true ∧
+      inI16 (ev + Gen.p_futility_prune_max_move_value) = true := by
+  obtain ⟨v, hv, b1, b2, _⟩ := reach_eval T root hs hl n g hr
+  exact ⟨v, hv, pruning_margins v depth ⟨b1, b2⟩ hd⟩
+
+open Rules in
+/-- `make_move` answers for every legal move there, and the result is reachable again -/
+theorem reach_make_total (root : Game) (hs : Sync theCfg root) (hl : legalPos (ofGame root) = true)
+    (n : Nat) (g : Game) (hr : ReachN root n g) (m : Move) (hm : m ∈ legalMoves (ofGame g)) :
+    ∃ g', Game.makeMove theCfg g m = some g' ∧ ReachN root (n + 1) g' := by
+  have h := reach_facts root (nodeOk_of_legal root hs hl) n g hr
+  obtain ⟨g', hg'⟩ := make_total_legal g m h.sinv hm
+  exact ⟨g', hg', ReachN.move n g g' m hr hm hg'⟩
+
+open Rules in
+/-- key and accumulators in step, views consistent, at most sixteen men a side: everywhere a search goes -/
+theorem reach_invariants (root : Game) (hs : Sync theCfg root) (hl : legalPos (ofGame root) = true)
+    (n : Nat) (g : Game) (hr : ReachN root n g) : NodeOk g :=
+  reach_facts root (nodeOk_of_legal root hs hl) n g hr
+
 end Tcheran.Props.C04
 #print axioms Tcheran.Props.C04.child_window
 #print axioms Tcheran.Props.C04.root_children
@@ -211,3 +255,7 @@ end Tcheran.Props.C04
 #print axioms Tcheran.Props.C04.search_answers_unless_panic
 #print axioms Tcheran.Props.C04.mate_sinv
 #print axioms Tcheran.Props.C04.mate_only_root
+#print axioms Tcheran.Props.C04.reach_no_eval_panic
+#print axioms Tcheran.Props.C04.reach_margins
+#print axioms Tcheran.Props.C04.reach_make_total
+#print axioms Tcheran.Props.C04.reach_invariants
